@@ -130,6 +130,7 @@ def normTok (t : Tables) : Tok → Piece
   | .charref r => .ref (charrefPiece t r)
   | .pi _ => .text []
   | .decl _ => .text []
+  | .mdecl _ => .text []
 
 def Clean (st : St) : Prop := st.unacceptable = 0 ∧ st.mathmlOK = 0 ∧ st.svgOK = 0
 
